@@ -1,7 +1,77 @@
+(* C01 -- Serialization round-trip preserves value, type and sharing topology.
+   Object layer (Obj.v) on top of the token layer (Token.v, lead) on top of the translated codecs (gen/BananaGen.v);
+   opentype strings / trackReferences / setObject flags from gen/SlicersGen.v.
+   A graph is given by its emission-order canonical term t; `heap_of n t`, `val_of n t` is the graph the term denotes
+   (node k = the container whose OPEN carried number k, `ORef k` = a pointer to node k: sharing and cycles);
+   `slice n t` is what the sender emits, `unslice` is the receiver's stack machine. *)
 From Coq Require Import ZArith List String Bool Lia.
 Import ListNotations.
-Require Import Verif.lib.PyLite Verif.gen.BananaGen Verif.gen.SlicersGen Verif.lib.Token Verif.lib.TokenProofs Verif.lib.Obj Verif.lib.ObjProofs.
+Require Import Verif.lib.PyLite Verif.gen.BananaGen Verif.gen.SlicersGen Verif.lib.Token Verif.lib.TokenProofs
+        Verif.lib.Obj Verif.lib.ObjProofs.
 Local Open Scope Z_scope.
-Theorem C01_placeholder : unslice true 0 (slice 0 (OList [ORef 0])) = Some (heap_of 0 (OList [ORef 0]), [VPtr 0]).
-Proof. exact placeholder_self_list. Qed.
-Print Assumptions C01_placeholder.
+
+(* "Any object graph built from the supported pass-by-value types ... including graphs with shared sub-objects and
+   reference cycles, arrives at the other end as a graph that is equal in value and type to the one sent and has the
+   same sharing/cycle structure": for EVERY well-formed term (any nesting depth, ints of any magnitude, bool vs int,
+   bytes vs text, list vs tuple vs set vs frozenset vs dict vs Copyable, back-references incl. a container inside
+   itself, nested call scopes) the receiver rebuilds exactly the denoted graph: same node numbers, same kinds, same
+   children, same pointers.  Guard wf_obj = what a sender can emit, minus the known-defective region (below). *)
+Theorem C01_slice_unslice : forall scoped n t, wf_obj scoped n t = true ->
+  unslice scoped n (slice n t) = Some (heap_of n t, [val_of n t]).
+Proof. exact slice_unslice. Qed.
+Print Assumptions C01_slice_unslice.
+
+(* the same for a sequence of top-level objects (successive calls/answers; several objects on one storage Banana) *)
+Theorem C01_slice_unslice_list : forall scoped n ts v, wf_list scoped [] [] n ts = Some v ->
+  unslice scoped n (slice_list n ts) = Some (heap_list n ts, vals_list n ts).
+Proof. exact slice_unslice_list. Qed.
+Print Assumptions C01_slice_unslice_list.
+
+(* the general form: in ANY admissible receiver state (any stack of open unslicers, any tables) the tokens of t are
+   consumed exactly and leave `adv st ..` *)
+Theorem C01_run_slice : forall t n sc vis imm vis' st, wf_at sc vis imm n t = Some vis' -> okst sc vis imm n st ->
+  run (slice n t) st = Some (adv st [val_of n t] (regs_of n t) (heap_of n t) (opens t)).
+Proof. intros t n sc vis imm vis' st W O. exact (proj1 (run_slice t n sc vis imm vis' st W O)). Qed.
+Print Assumptions C01_run_slice.
+
+(* "integers of any magnitude ... no matter how the byte stream is split": down to bytes and back, through the
+   lead's stream_roundtrip (chunk-independence of the byte-level receiver is C07) *)
+Theorem C01_bytes_roundtrip : forall scoped n t bs, wf_obj scoped n t = true -> forallb wf_token (slice n t) = true ->
+  encode_stream (slice n t) = Ok bs ->
+  exists toks, decode bs = (toks, EndClean) /\ unslice scoped n toks = Some (heap_of n t, [val_of n t]).
+Proof. exact bytes_roundtrip. Qed.
+Print Assumptions C01_bytes_roundtrip.
+
+(* "... or what vocabulary-compression table is in force" *)
+Theorem C01_vocab_transparent : forall tbl ts, NoDup (map snd tbl) -> forallb no_vocab ts = true ->
+  devocab tbl (envocab tbl ts) = Some ts.
+Proof. exact vocab_transparent. Qed.
+Print Assumptions C01_vocab_transparent.
+
+Theorem C01_roundtrip_any_vocab : forall scoped n t tbl, wf_obj scoped n t = true -> NoDup (map snd tbl) ->
+  exists toks, devocab tbl (envocab tbl (slice n t)) = Some toks /\ unslice scoped n toks = Some (heap_of n t, [val_of n t]).
+Proof. exact roundtrip_any_vocab. Qed.
+Print Assumptions C01_roundtrip_any_vocab.
+
+(* "Sharing is preserved within one call and never leaks between two calls": (sender) a scoped sequence emitted where
+   nothing outside is visible refers only to objects opened inside itself, and leaves nothing visible behind; *)
+Theorem C01_scope_refs_are_local : forall nm xs imm n vis',
+  wf_at false [] imm n (OCont (CScope nm) xs) = Some vis' -> refs_ge_list (n + 1) xs = true /\ vis' = [].
+Proof. exact scope_refs_are_local. Qed.
+Print Assumptions C01_scope_refs_are_local.
+
+(* (receiver) after a call has been closed, a reference in the next call to ANY number outside that call is refused *)
+Theorem C01_scope_isolation_receiver : forall nm1 xs1 nm2 n k v,
+  wf_list false [] [] n [OCont (CScope nm1) xs1] = Some v -> shape_ok (CScope nm2) [] = true ->
+  unslice false n (slice_list n [OCont (CScope nm1) xs1; OCont (CScope nm2) [ORef k]]) = None.
+Proof. exact scope_isolation_receiver. Qed.
+Print Assumptions C01_scope_isolation_receiver.
+
+(* Full statement without the guard's last two clauses is FALSE on the faithful model and on the code (known findings):
+   a tuple that contains a Copyable whose attribute (or whose dict's key) is that tuple is sent, but cannot be received. *)
+Theorem C01_refuted_copy_attr : unslice true 0 (slice 0 witness_copy_attr) = None.
+Proof. exact (proj1 refuted_copy_attr). Qed.
+Print Assumptions C01_refuted_copy_attr.
+Theorem C01_refuted_dict_key : unslice true 0 (slice 0 witness_dict_key) = None.
+Proof. exact (proj1 refuted_dict_key). Qed.
+Print Assumptions C01_refuted_dict_key.
